@@ -149,6 +149,19 @@ def rule_discrete_search(ck, rid_safe="C07.R3", rid_max=None, which=("safe", "ma
                 return True
         return False
 
+    def idx_zero(node):
+        """the edge establishes that the index stands on the lowest level (idx == 0 / idx <= 0 / idx < 1)"""
+        if node.kind != "edge" or node.test.kind != "test" or idx is None:
+            return False
+        for a, t in edge_facts(node.test.expr, node.label):
+            c = cmp_norm(a, t)
+            if not c:
+                continue
+            l, op, r = canon(c[0]), c[1], canon(c[2])
+            if (l == idx and op in ("==", "<=") and r == "0") or (l == idx and op == "<" and r == "1") or (l == "0" and op == "==" and r == idx):
+                return True
+        return False
+
     problems = []      # (kind, node, message, sink)
     seen = set()
 
@@ -174,6 +187,8 @@ def rule_discrete_search(ck, rid_safe="C07.R3", rid_max=None, which=("safe", "ma
                 chk = "F" if t else "I"
             if idx_negative(n):
                 exhausted = True
+            if idx_zero(n) and pending == 0 and chk == "I" and val == "cand":
+                exhausted = True          # the candidate just refused *is* the lowest level: nothing is left to try
             return [(val, chk, pending, exhausted, top)]
         if n.kind == "stmt":
             st = n.stmt
